@@ -47,7 +47,8 @@ ASSUMPTIONS = ['Series form goes through pdextract, which only takes a seed: '
 F_ORDER_SAMPLE = 'F-rexpy-sample-depends-on-order'
 
 VARIANTS = ['asis', 'perm', 'dict', 'repeat', 'series', 'dict0',
-            'series-cat', 'bytes', 'bytes-dict', 'raises', 'function']
+            'series-cat', 'bytes', 'bytes-dict', 'raises', 'function',
+            'defaultdict']
 
 
 def check_function_for(xs, sampled):
@@ -243,6 +244,15 @@ def variant_input(xs, variant, key):
                   if z not in c and ((key >> (i % 9)) & 1 or i == key % 9)]
             d = dict([(z, 0) for z in zs[:1]] + list(d.items())
                      + [(z, 0) for z in zs[1:]])
+        return d
+    if variant == 'defaultdict':
+        # a dict subclass, with the zero-count entry a lookup leaves behind
+        from collections import defaultdict
+        d = defaultdict(int)
+        for x in det_perm(xs, key):
+            d[x] += 1
+        if key % 2:
+            d['never supplied zq-%d' % key]
         return d
     if variant == 'repeat':
         reps = [x for (i, x) in enumerate(xs) if (key >> (i % 10)) & 1]
